@@ -60,6 +60,8 @@ int verif_readf (SF_PRIVATE *psf, const char *fmt, int nargs, const uint64_t *ar
 	return r_nd ;
 }
 
+/* E1 strstr: the parsers only compare the result with the start of the haystack (banner checks) */
+char * strstr (const char *h, const char *n) { _Bool at_start_nd ; return at_start_nd ? (char *) h : NULL ; }
 sf_count_t psf_ftell (SF_PRIVATE *psf) { sf_count_t nd ; return nd ; }
 sf_count_t psf_fseek (SF_PRIVATE *psf, sf_count_t offset, int whence) { sf_count_t nd ; return nd ; }
 sf_count_t psf_get_filelen (SF_PRIVATE *psf) { sf_count_t nd ; return nd ; }
@@ -77,8 +79,6 @@ void h_parser (void)
 	P.filelength = fl ; P.fileoffset = fo ; P.file.mode = SFM_READ ;
 	__CPROVER_assume (fl >= 0 && fo >= 0) ;
 	int r = READ_FN (&P) ;
-	if (r == 0)
-		} ;
 	REACH (r == 0, "some byte string is accepted") ;
 	REACH (r != 0, "some byte string is refused") ;
 	CANARY () ;
